@@ -6,6 +6,7 @@ import (
 	"os"
 	"path/filepath"
 	"strings"
+	"sync"
 
 	"verif/internal/core"
 )
@@ -131,10 +132,18 @@ func confirm(env *core.Env, t Trace) bool {
 }
 
 var confirmMu = make(chan struct{}, 1)
+var unconfMu sync.Mutex
+var unconfSeen = map[string]bool{}
 
 // report confirms (serialised: the replay dir is shared) and records a violation.
 func report(env *core.Env, sig, detail string, t Trace) {
 	if env.ViolationSeen(sig) {
+		return
+	}
+	unconfMu.Lock()
+	skip := unconfSeen[sig]
+	unconfMu.Unlock()
+	if skip {
 		return
 	}
 	confirmMu <- struct{}{}
@@ -143,8 +152,14 @@ func report(env *core.Env, sig, detail string, t Trace) {
 		return
 	}
 	if !confirm(env, t) {
-		env.Logf("UNCONFIRMED candidate (server-only, not reported): %s :: %s", sig, detail)
-		unconfirmed.Add(1)
+		unconfMu.Lock()
+		first := !unconfSeen[sig]
+		unconfSeen[sig] = true
+		unconfMu.Unlock()
+		if first {
+			env.Logf("UNCONFIRMED candidate (server-only, not reported): %s :: %s", sig, clipS(detail, 600))
+			unconfirmed.Add(1)
+		}
 		return
 	}
 	env.Violation(sig, detail, t)
